@@ -810,6 +810,8 @@ class _Interp(object):
                     return getattr(base, n.attr)
                 except ValueError:
                     raise Raised("ValueError")
+            if isinstance(base, range) and n.attr in ("start", "stop", "step"):
+                return getattr(base, n.attr)
             if isinstance(base, _re_Match) and n.attr in ("string", "pos", "endpos", "lastindex", "lastgroup"):
                 return getattr(base, n.attr)
             if isinstance(base, _re_Match) and n.attr == "re":
